@@ -598,6 +598,9 @@ func crossTpl(name string) chainx.Tpl {
 	if strings.HasPrefix(name, shPrefix) { // plan I: the name says kind, pack and role
 		return shTpl(name)
 	}
+	if strings.HasPrefix(name, manyPrefix) { // plan J: the name is the program of the block
+		return manyTpl(name)
+	}
 	for _, t := range crossTemplates() {
 		if t.Name == name {
 			return t
@@ -867,6 +870,9 @@ func (sc *scenario) growPath() error {
 			return fmt.Errorf("block %d: %w", i, err)
 		}
 		if err := shVerify(n, sc.tpls[h[i-1]].Name); err != nil {
+			return fmt.Errorf("block %d: %w", i, err)
+		}
+		if err := manyVerify(n, sc.tpls[h[i-1]].Name); err != nil {
 			return fmt.Errorf("block %d: %w", i, err)
 		}
 		shMeasureDepth(n, sc.tpls[h[i-1]].Name)
